@@ -118,7 +118,7 @@ def run(tier, replay):
         # behaviours
         shapes = [("CmdsOne2", [[3, 2]]), ("CmdsOne1", [[5]]), ("CmdsOne4", [[4, 3, 3, 2]]), ("CmdsTwo", [[0], [2]]), ("CmdsTwoB", [[2], [1, 1]]),
                   ("CmdsThree", [[1], [2, 1], [0]])]
-        nsim = 25 if tier == "quick" else 150
+        nsim = 25 if tier == "quick" else 400
         cases = []
         for name, cmds in shapes:
             rs = vlib.tlc(wd, "MC_SessionSched", "S.cfg",
@@ -142,7 +142,7 @@ def run(tier, replay):
         if len(cases) < 20:
             raise vlib.Inconclusive("too few behaviours from TLC (%d)" % len(cases))
         rng.shuffle(cases)
-        limit = 70 if tier == "quick" else 600
+        limit = 70 if tier == "quick" else 2000
         multi = [c for c in cases if len(c["cmds"]) > 1][:limit // 4]
         single = [c for c in cases if len(c["cmds"]) == 1][:limit - len(multi)]
         cases = single + multi
